@@ -11,6 +11,35 @@ FDT = "sender::fdt::Fdt"
 FDTI = "common::fdtinstance::FdtInstance"
 
 
+def operand_range_at(prog, a):
+    """E4 interval of the operand stored by the aggregate/assignment access `a` (field_accesses record)"""
+    f = a["func"]
+    rp = ranges.analyse(prog, f)
+    st = rp.entry.get(a["bb"])
+    if st is None:
+        return None
+    st = st.copy()
+    blk = f.body.blocks[a["bb"]]
+    for i, s2 in enumerate(blk.stmts):
+        if i == a["idx"]:
+            if s2.rv.k == "aggr":
+                names = s2.rv.j.get("fnames") or []
+                fld = a.get("field") or "fdtid"
+                if fld in names:
+                    return rp.operand(st, s2.rv.ops[names.index(fld)])[0]
+                return None
+            if s2.rv.k == "use":
+                return rp.operand(st, s2.rv.ops[0])[0]
+            if s2.rv.k == "bin":
+                x_, _ = rp.operand(st, s2.rv.ops[0])
+                y_, _ = rp.operand(st, s2.rv.ops[1])
+                return rp.binop(s2.rv.j["op"], x_, y_, "u32")
+            return None
+        if s2.k == "assign":
+            rp.assign(st, s2.lhs, s2.rv, a["bb"], s2.sp)
+    return None
+
+
 def run(ctx):
     prog = ctx.prog
     ctx.explanation = (
@@ -37,7 +66,12 @@ def run(ctx):
         caller = a["func"].root().path
         key = "%s %s Fdt.fdtid" % (caller, a["kind"])
         if a["kind"] == "construct" and caller == FDT + "::new":
-            r1.ok(key, "initial value = %s" % show(a["value"], 40), loc(a["sp"]))
+            rng = operand_range_at(prog, a)
+            if rng is not None and rng[0] >= 0 and rng[1] <= 2 ** 20 - 1:
+                r1.ok(key, "initial value = %s in [%s, %s]" % (show(a["value"], 40), rng[0], rng[1]), loc(a["sp"]))
+            else:
+                r1.violation(key, "the first instance id is %s with range %s: a configured start id >= 2^20 is not reduced modulo 2^20 and spills into the "
+                                  "version bits (and beyond 2^24 into the HET) of EXT_FDT, which push_fdt ORs together without masking" % (show(a["value"], 40), rng), loc(a["sp"]))
         elif a["kind"] == "assign" and caller == FDT + "::publish":
             incs.append(a)
             # range of the assigned value: evaluate at the assignment
